@@ -848,4 +848,106 @@ theorem mapStack_err (g : Grammar) (order : List Ty) (limit fuel : Nat) (dna : L
   rw [h] at this
   exact this
 
+/-! ### Concrete data for the witnesses and non-vacuity examples of Props/C01, C02, C07 -/
+
+/-- `Root(x: Annotated[int, IntRange(2, 4)])` -/
+def stackRefSpec : GrammarSpec :=
+  { classes := [{ name := "Root", abstract := false, parent := none,
+                  fields := [("x", .ann .int (.intRange 2 4))] }],
+    start := 0, considered := [0] }
+def stackRefG : Grammar := analyse stackRefSpec
+/-- its mentioned symbols -/
+def stackRefOrder : List Ty := [.cls 0, .int, .ann .int (.intRange 2 4)]
+
+/-- `Root(iv: Annotated[tuple[int, int], IntervalRange(1, 2, 10)])` -/
+def stackTupSpec : GrammarSpec :=
+  { classes := [{ name := "Root", abstract := false, parent := none,
+                  fields := [("iv", .ann (.tuple [.int, .int]) (.interval 1 2 10))] }],
+    start := 0, considered := [0] }
+def stackTupG : Grammar := analyse stackTupSpec
+def stackTupOrder : List Ty :=
+  [.cls 0, .int, .ann (.tuple [.int, .int]) (.interval 1 2 10), .tuple [.int, .int]]
+
+/-- `Root(e: Expr, t: tuple[int, bool], l: list[int], u: Union[str, float],
+r: Annotated[int, IntRange(2, 4)])`, `Expr` (abstract) ::= `Lit(v: int)`: every kind of symbol
+the machine distinguishes -/
+def stackExSpec : GrammarSpec :=
+  { classes := [
+      { name := "Root", abstract := false, parent := none,
+        fields := [("e", .cls 1), ("t", .tuple [.int, .bool]), ("l", .list .int),
+                   ("u", .union [.str, .float]), ("r", .ann .int (.intRange 2 4))] },
+      { name := "Expr", abstract := true, parent := none, fields := [] },
+      { name := "Lit", abstract := false, parent := some 1, fields := [("v", .int)] }],
+    start := 0, considered := [0, 1, 2] }
+def stackExG : Grammar := analyse stackExSpec
+def stackExOrder : List Ty :=
+  [.cls 0, .cls 1, .cls 2, .int, .bool, .str, .float, .ann .int (.intRange 2 4), .list .int,
+   .tuple [.int, .bool], .union [.str, .float]]
+/-- int, int, int, Lit, Expr, bool, tuple, int, list (length 1), str, union, the refined int, Root -/
+def stackExDna : List Int :=
+  [0, 300000, 10005, 300000, 10007, 300000, 10009, 200000, 100000, 0, 400000, 0, 900000, 300000,
+   10001, 800000, 1, 500000, 1000000, 0, 700000, 0]
+/-- `Root(Lit(9), (5, True), [7], "", 0)`: the refined field holds `int()` -/
+def stackExVal : Val :=
+  .node 0 0 0 [.node 2 0 0 [.int 9], .tuple [.int 5, .bool true], .list 0 0 [.int 7], .str "", .int 0]
+
+/-- the same grammar with the refinement erased, its symbols and a genotype building the same
+program shape without the refined symbol -/
+def stackExGS : Grammar := analyse (stripSpec stackExSpec)
+def stackExOrderS : List Ty :=
+  [.cls 0, .cls 1, .cls 2, .int, .bool, .str, .float, .list .int, .tuple [.int, .bool],
+   .union [.str, .float]]
+def stackExDnaS : List Int :=
+  [0, 300000, 10005, 300000, 10007, 300000, 10009, 200000, 100000, 0, 400000, 0, 800000, 300000,
+   10001, 700000, 1, 500000, 900000, 0, 0]
+def stackExValS : Val :=
+  .node 0 0 0 [.node 2 0 0 [.int 9], .tuple [.int 5, .bool true], .list 0 0 [.int 7], .str "", .int 1]
+
+/-! ### Reading off the program a concrete run returns (for `decide +kernel`) -/
+
+mutual
+theorem Val.eq_of_beq : ∀ (a b : Val), Val.beq a b = true → a = b
+  | .int _, b, h => by cases b <;> simp_all [Val.beq]
+  | .float, b, h => by cases b <;> simp_all [Val.beq]
+  | .str _, b, h => by cases b <;> simp_all [Val.beq]
+  | .bool _, b, h => by cases b <;> simp_all [Val.beq]
+  | .foreign _, b, h => by cases b <;> simp_all [Val.beq]
+  | .node c d e as, b, h => by
+    cases b <;> simp only [Val.beq, Bool.and_eq_true, beq_iff_eq, Bool.false_eq_true] at h
+    obtain ⟨⟨⟨h1, h2⟩, h3⟩, h4⟩ := h
+    rw [h1, h2, h3, Val.eqList_of_beq as _ h4]
+  | .list d e as, b, h => by
+    cases b <;> simp only [Val.beq, Bool.and_eq_true, beq_iff_eq, Bool.false_eq_true] at h
+    obtain ⟨⟨h2, h3⟩, h4⟩ := h
+    rw [h2, h3, Val.eqList_of_beq as _ h4]
+  | .tuple as, b, h => by
+    cases b <;> simp only [Val.beq, Bool.false_eq_true] at h
+    rw [Val.eqList_of_beq as _ h]
+theorem Val.eqList_of_beq : ∀ (as bs : List Val), Val.beqList as bs = true → as = bs
+  | [], bs, h => by cases bs <;> simp_all [Val.beqList]
+  | a :: as, bs, h => by
+    cases bs with
+    | nil => simp [Val.beqList] at h
+    | cons b bs =>
+      simp only [Val.beqList, Bool.and_eq_true] at h
+      rw [Val.eq_of_beq a b h.1, Val.eqList_of_beq as bs h.2]
+end
+
+/-- the run returned the program `v` -/
+def okVal (r : Res Val) (v : Val) : Bool :=
+  match r with
+  | .ok x _ => Val.beq x v
+  | .err _ _ => false
+
+theorem okVal_spec (r : Res Val) (v : Val) (h : okVal r v = true) : ∃ s', r = .ok v s' := by
+  cases r with
+  | ok x s => exact ⟨s, by rw [Val.eq_of_beq x v h]⟩
+  | err e s => simp [okVal] at h
+
+/-- the run raised `e` -/
+def errIs (r : Res Val) (e : Err) : Bool :=
+  match r with
+  | .ok _ _ => false
+  | .err x _ => x == e
+
 end GEVerif.StackLemmas
